@@ -43,6 +43,10 @@ fn main() {
         "local" => driver::cmd_local(&args[2..]),
         "minimize" => driver::cmd_minimize(&args[2..]),
         "selftest" => driver::cmd_selftest(&args[2..]),
+        "skips" => {
+            driver::debug_skips(&args[2], args[3].parse().unwrap(), args[4].parse().unwrap(), args[5].parse().unwrap());
+            0
+        }
         "panics" => {
             driver::debug_panics(&args[2], args[3].parse().unwrap(), args[4].parse().unwrap(), args[5].parse().unwrap());
             0
